@@ -58,3 +58,21 @@ Fixpoint serve_run (c : cache) (l : list scase) : list (Z * Z) :=
 (** library twins compared with Go on every generated input *)
 Definition opt_bytes_code (o : option (bytes * bytes)) : list bytes :=
   match o with None => [] | Some (u, p) => [[1%N]; u; p] end.
+
+Fixpoint bweight (i : Z) (n : bytes) : Z :=
+  match n with [] => 0 | b :: tl => i * (Z.of_N b + 1) + bweight (i + 1) tl end.
+
+(** parseBasicAuth projected to numbers: (ok, |user|, weight user, |pass|, weight pass) *)
+Definition basic_code (v : bytes) : Z * Z * Z * Z * Z :=
+  match parse_basic v with
+  | None => (0, 0, 0, 0, 0)
+  | Some (u, p) => (1, Z.of_nat (length u), bweight 1 u, Z.of_nat (length p), bweight 1 p)
+  end.
+
+(** strings.TrimSpace / strconv.ParseInt / hex.DecodeString projected to numbers *)
+Definition trim_code (v : bytes) : Z * Z := (Z.of_nat (length (trim_space v)), bweight 1 (trim_space v)).
+Definition parse_int_code (v : bytes) : Z * Z := match parse_int v with None => (0, 0) | Some z => (1, z) end.
+Definition hex_code (v : bytes) : Z * Z * Z :=
+  match hex_decode v with None => (0, 0, 0) | Some b => (1, Z.of_nat (length b), bweight 1 b) end.
+Definition secrets_code (cfg : hmac_cfg) (t : Z) : Z * Z :=
+  let l := secrets_at cfg t in (Z.of_nat (length l), fold_left (fun acc k => acc + bweight 1 k) l 0).
